@@ -450,8 +450,89 @@ def bank_c15():
     return asyncio.run(go())
 
 
+def _client_identities():
+    """client certificates of successive connections to ONE server process: two unrelated ones, then twins - different keys,
+    same subject, issuer, serial number and validity (whoever self-signs chooses all of those) - then the first again"""
+    import datetime
+    import hashlib
+    from cryptography import x509 as cx
+    from cryptography.hazmat.primitives import hashes, serialization
+    from cryptography.hazmat.primitives.asymmetric import ec
+    from cryptography.x509.oid import NameOID
+    t0 = datetime.datetime(2024, 1, 1, tzinfo=datetime.timezone.utc)
+
+    def make(cn, serial):
+        key = ec.generate_private_key(ec.SECP256R1())
+        name = cx.Name([cx.NameAttribute(NameOID.COMMON_NAME, cn)])
+        c = (cx.CertificateBuilder().subject_name(name).issuer_name(name).public_key(key.public_key()).serial_number(serial)
+             .not_valid_before(t0).not_valid_after(t0 + datetime.timedelta(days=36500)).sign(key, hashes.SHA256()))
+        return (cn, serial, c, key, "sha256:" + hashlib.sha256(c.public_bytes(serialization.Encoding.DER)).hexdigest())
+    a, b = make("alice", 1001), make("bob", 1002)
+    t1, t2 = make("twin", 4242), make("twin", 4242)
+    return [a, b, t1, t2, a, t1, t2]
+
+
+def bank_c04():
+    """the chain is consulted with the fingerprint of the certificate presented on THIS connection - over a history of
+    connections to one server process whose clients include certificates that share subject, issuer and serial number"""
+    from OpenSSL import crypto
+    seen = []
+
+    class Recorder:
+        async def process_request(self, url, ip, fp=None):
+            seen.append(fp)
+            return True, None
+
+    def handler(req):
+        return GeminiResponse(status=20, meta="text/plain", body="ok\n")
+    history = []
+    for cn, serial, cert, key, want in _client_identities():
+        ctx = SSL.Context(SSL.TLS_CLIENT_METHOD)
+        ctx.set_verify(SSL.VERIFY_NONE, lambda *a: True)
+        ctx.use_certificate(crypto.X509.from_cryptography(cert))
+        ctx.use_privatekey(crypto.PKey.from_cryptography_key(key))
+        cli = SSL.Connection(ctx, None)
+        cli.set_connect_state()
+        del seen[:]
+        inner_box = []
+
+        async def go():
+            server = tp.TLSServerProtocol(lambda: inner_box.append(sp.GeminiServerProtocol(handler, Recorder())) or inner_box[-1], server_context())
+            tcp = FakeTCP()
+            server.connection_made(tcp)
+            sent = False
+            for _ in range(200):
+                if not sent:
+                    try:
+                        cli.do_handshake()
+                        cli.send(b"gemini://localhost/who\r\n")
+                        sent = True
+                    except SSL.WantReadError:
+                        pass
+                try:
+                    out = cli.bio_read(1 << 16)
+                    if out:
+                        server.data_received(out)
+                except SSL.WantReadError:
+                    pass
+                await asyncio.sleep(0)
+                while tcp.chunks:
+                    cli.bio_write(tcp.chunks.pop(0))
+                if tcp.closed and sent:
+                    break
+            await asyncio.sleep(0)
+        asyncio.run(go())
+        history.append(f"{cn}/serial {serial}")
+        if seen != [want]:
+            return dict(confirmed=True, input=dict(backend="PyOpenSSL", connections_to_one_server=list(history),
+                                                   note="certificates named alike have the same subject, issuer and serial number but different keys"),
+                        observed=dict(chain_consulted_with=list(seen), presented=want),
+                        clause="the chain is consulted with the fingerprint of the certificate actually presented on this connection")
+    return dict(confirmed=False, reason="every connection's chain call carried the fingerprint of the certificate presented on it", tried=len(history))
+
+
 def bank(focus):
-    order = {"C06": [bank_c06, bank_c07], "C07": [bank_c07, bank_c06], "C15": [bank_c15], "C20": [bank_c20, bank_c15]}.get(focus, [bank_c06, bank_c07, bank_c15, bank_c20])
+    order = {"C06": [bank_c06, bank_c07], "C07": [bank_c07, bank_c06], "C15": [bank_c15], "C20": [bank_c20, bank_c15], "C04": [bank_c04]}.get(focus, [bank_c06, bank_c07, bank_c15, bank_c20])
     last = None
     for f in order:
         last = f()
